@@ -127,6 +127,13 @@ Section Transport.
 Variables V B : Type.
 Variable genc : ctype -> V -> B.
 Variable gdec : ctype -> B -> option V.
+(* two facts of the Go text that the model keeps behind switches; goparams reads
+   them from /repo (Gen/C16_params.v):
+   [rej_nilptr]: GobEncode tests `v.Kind() == reflect.Ptr && v.IsNil()` and returns
+     an error before calling enc.Encode(arg) (false: gob panics on the nil pointer);
+   [rej_nilres]: Session.run returns an error for a nil *Result argument before the
+     invocation is made (false: addInvocation dereferences it and panics). *)
+Variables rej_nilptr rej_nilres : bool.
 
 (* an argument as held in Invocation.Args ([]interface{}) *)
 Inductive arg :=
@@ -210,7 +217,9 @@ Definition encode_arg (p : ptype) (a : arg) : eres1 :=
     match a with
     | ANil => E1Err           (* "gob: cannot encode nil value" *)
     | AVal c v => if gob_handles c then E1Ok (WVal c (genc c v)) else E1Err
-    | ATNil c => if is_pointer c then E1Panic   (* gob panics: "cannot encode nil pointer of type" *)
+    | ATNil c => if is_pointer c
+                 then (if rej_nilptr then E1Err   (* "encoding arg %d of type %v: nil pointer" *)
+                       else E1Panic)              (* gob panics: "cannot encode nil pointer of type" *)
                  else E1Err
     | AResult _ => E1Err      (* not reached *)
     | ARef i => E1Ok (WRefV i)
@@ -305,13 +314,23 @@ Definition run_prefix (known : list Z) (ps : list ptype) (args : list arg) : run
 (* ---- the whole way: Invocation() typechecks, Run serialises, the worker decodes,
         substitutes and invokes (Apply typechecks again) ---- *)
 Inductive outcome :=
+| OSessErr                    (* Session.run returns "argument %d is a nil *Result": nothing is made *)
 | OTypeErr                    (* FuncValue.Invocation panics with a typecheck error *)
 | ORunErr
 | ORunPanic
 | OWorkerErr                  (* worker.Compile returns an error *)
 | OArrived (args : list arg). (* the Func is applied to these arguments on the worker *)
 
+Fixpoint has_nil_result (args : list arg) : bool :=
+  match args with
+  | [] => false
+  | ATNil CResult :: _ => true
+  | _ :: rest => has_nil_result rest
+  end.
+
 Definition transport (known compiled : list Z) (ps : list ptype) (args : list arg) : outcome :=
+  (* Session.run looks for a nil *Result before it calls funcv.Invocation *)
+  if rej_nilres && has_nil_result args then OSessErr else
   if negb (typecheck ps args) then OTypeErr else
   match run_prefix known ps args with
   | RunErr => ORunErr
@@ -343,24 +362,19 @@ Definition fresh_transport (g : list (Z * list Z)) (ps : list ptype) (args : lis
   transport (map fst g) (fresh_compiled g args) ps args.
 
 (* ---- what the property asks of one well-typed argument ---- *)
-(* a typed nil pointer that the transport could represent: the parameter type
-   fixes the pointer type, or it is a *Result (which never goes through gob: it
-   is replaced by a reference).  A nil pointer of another type inside an
-   interface has no gob representation ("cannot encode nil pointer inside interface"). *)
-Definition nil_representable (p : ptype) (c : ctype) : bool :=
-  is_pointer c && (negb (is_iface p) || match c with CResult => true | _ => false end).
 (* must arrive intact: values of gob-encodable types, registered concrete types
-   inside interfaces, nil values whose type the parameter fixes (untyped nil, nil
-   pointers for pointer-typed parameters), Results *)
+   inside interfaces, untyped nil (typecheck and Apply accept it for every nil-able
+   parameter and turn it into the zero value), Results *)
 Definition must_arrive (p : ptype) (a : arg) : bool :=
   match a with
   | ANil => match p with PC c => gob_handles c | _ => true end
   | AVal c _ => negb (internal c) && if is_iface p then registered c else gob_handles c
-  | ATNil c => nil_representable p c
+  | ATNil _ => false
   | AResult _ => true
   | ARef _ => false
   end.
-(* among those, the ones the code does ship (everything but the nil cases) *)
+(* among those, the ones the code does ship (everything but the untyped nil for a
+   non-interface parameter) *)
 Definition ships (p : ptype) (a : arg) : bool :=
   match a with
   | ANil => is_iface p
@@ -370,13 +384,13 @@ Definition ships (p : ptype) (a : arg) : bool :=
   | ARef _ => false
   end.
 (* cannot be encoded: chan and func values (nil or not), unregistered types in
-   interfaces, typed nil pointers inside interfaces (gob has no representation
-   for them: "cannot encode nil pointer inside interface") *)
+   interfaces, typed nil pointers (gob has no representation for them), and a nil
+   *Result (it stands for no invocation) *)
 Definition unencodable (p : ptype) (a : arg) : bool :=
   match a with
   | ANil => match p with PC c => negb (gob_handles c) | _ => false end
   | AVal c _ => negb (internal c) && negb (if is_iface p then iface_sendable c else gob_handles c)
-  | ATNil c => negb (nil_representable p c)
+  | ATNil _ => true
   | _ => false
   end.
 
@@ -410,6 +424,7 @@ Arguments COk {V} args.
 Arguments CEncErr {V}.
 Arguments CDecErr {V}.
 Arguments CPanic {V}.
+Arguments OSessErr {V}.
 Arguments OTypeErr {V}.
 Arguments ORunErr {V}.
 Arguments ORunPanic {V}.
